@@ -136,10 +136,21 @@ func (st *State) allocRef() string {
 	return r
 }
 
+const cntSort = "(Array Int (Array Int Int))"
+
 func (st *State) logEvent(ev string) {
 	c := st.c
-	st.evlog = c.define("evlog", "(Array Int Ev)", fmt.Sprintf("(store %s %s %s)", st.evlog, st.evlen, ev))
+	e := c.define("ev", "Ev", ev)
+	st.evlog = c.define("evlog", "(Array Int Ev)", fmt.Sprintf("(store %s %s %s)", st.evlog, st.evlen, e))
 	st.evlen = c.define("evlen", "Int", fmt.Sprintf("(+ %s 1)", st.evlen))
+	// ghost counters: events by (kind, dynamic type of the payload | code id) and by (kind, channel/object)
+	k := "(ev_kind " + e + ")"
+	t := c.define("evt", "Int", fmt.Sprintf("(ite (or (= %s 1) (= %s 2) (= %s 4)) (i_tag (ev_val %s)) (ev_ch %s))", k, k, k, e, e))
+	cnt := st.heap("CNT", cntSort)
+	st.setHeap("CNT", cntSort, fmt.Sprintf("(store %s %s (store (select %s %s) %s (+ (select (select %s %s) %s) 1)))", cnt, k, cnt, k, t, cnt, k, t))
+	cnc := st.heap("CNC", cntSort)
+	ch := "(ev_ch " + e + ")"
+	st.setHeap("CNC", cntSort, fmt.Sprintf("(store %s %s (store (select %s %s) %s (+ (select (select %s %s) %s) 1)))", cnc, k, cnc, k, ch, cnc, k, ch))
 }
 
 // havocLog: unknown number of events appended (prefix preserved).
@@ -151,13 +162,27 @@ func (st *State) havocLog() {
 	st.assume(fmt.Sprintf("(>= %s %s)", st.evlen, oldLen))
 	// prefix preserved: stated pointwise through an uninterpreted witness-free quantifier
 	st.assume(fmt.Sprintf("(forall ((k!p Int)) (! (=> (and (<= 0 k!p) (< k!p %s)) (= (select %s k!p) (select %s k!p))) :pattern ((select %s k!p))))", oldLen, st.evlog, oldLog, st.evlog))
+	// counters only grow
+	for _, h := range []string{"CNT", "CNC"} {
+		old := st.heap(h, cntSort)
+		st.havocHeap(h)
+		nw := st.heap(h, cntSort)
+		st.assume(fmt.Sprintf("(forall ((k!c Int) (t!c Int)) (! (>= (select (select %s k!c) t!c) (select (select %s k!c) t!c)) :pattern ((select (select %s k!c) t!c))))", nw, old, nw))
+	}
 }
 
 // havocLogOpaque: unknown code (function values, callees outside the loaded packages) appends only opaque events:
 // it is assumed not to communicate on the channels, tracers, locks and wait groups of the activation under analysis.
 func (st *State) havocLogOpaque() {
 	oldLen := st.evlen
+	oldCnt, oldCnc := st.heap("CNT", cntSort), st.heap("CNC", cntSort)
 	st.havocLog()
+	// only events of kind Other were appended: every other counter is unchanged
+	var eqs []string
+	for k := 1; k <= 11; k++ {
+		eqs = append(eqs, fmt.Sprintf("(= (select %s %d) (select %s %d)) (= (select %s %d) (select %s %d))", st.heap("CNT", cntSort), k, oldCnt, k, st.heap("CNC", cntSort), k, oldCnc, k))
+	}
+	st.assume("(and " + strings.Join(eqs, " ") + ")")
 	st.assume(fmt.Sprintf("(forall ((k!p Int)) (! (=> (and (<= %s k!p) (< k!p %s)) (= (ev_kind (select %s k!p)) %d)) :pattern ((select %s k!p))))", oldLen, st.evlen, st.evlog, evKinds["Other"], st.evlog))
 }
 
